@@ -46,7 +46,7 @@ PROBES = ["length-byte-21-23", "length-byte-0", "length-byte-over-23", "bad-chec
 
 
 # ---------------------------------------------------------------------------
-def gen_luba_stream(r):
+def gen_luba_stream(r, long=False):
     segs = []
     kinds = []
 
@@ -54,11 +54,14 @@ def gen_luba_stream(r):
         tick = r.getrandbits(16)
         return ref.luba_frame(0x31, [tick >> 8, tick & 0xFF, 0, (etype << 6) | info] + list(tail))
 
-    for _ in range(r.randrange(2, 14)):
-        k = r.choice(["raw", "cmd16", "cmd24", "edt+ext", "conf", "conf", "event-other", "event-err",
-                      "devinfo", "settings", "txrsp", "known-unexpected", "unknown-type", "any-length",
-                      "any-length", "bad-checksum", "truncated", "noise", "noise-Y", "payload-Y", "long-cmd",
-                      "malformed", "cmd-odd-info"])
+    allk = ["raw", "cmd16", "cmd24", "edt+ext", "conf", "conf", "event-other", "event-err",
+            "devinfo", "settings", "txrsp", "known-unexpected", "unknown-type", "any-length",
+            "any-length", "bad-checksum", "truncated", "noise", "noise-Y", "payload-Y", "long-cmd",
+            "malformed", "cmd-odd-info"]
+    # a long stretch of monitoring: many items of one or two kinds queue up before anybody takes them out
+    hot = [r.choice(["raw", "cmd16", "cmd24", "conf", "devinfo", "settings", "txrsp", "event-err"]) for _ in range(2)]
+    for _ in range(r.randrange(36, 120) if long else r.randrange(2, 14)):
+        k = r.choice(hot * 6 + [r.choice(allk)]) if long else r.choice(allk)
         kinds.append(k)
         if k == "raw":
             segs.append(ev(2, 8, [r.randrange(256)]))
@@ -137,12 +140,14 @@ def gen_luba_stream(r):
     return b"".join(segs), kinds
 
 
-def gen_sci_stream(r):
+def gen_sci_stream(r, long=False):
     segs = []
     kinds = []
-    for _ in range(r.randrange(2, 16)):
-        k = r.choice(["ok", "no", "raw", "cmd16", "cmd24", "edt+ext", "error", "error-unknown", "unsupported",
-                      "unknown-code", "bad-checksum", "noise5", "noise", "truncated"])
+    allk = ["ok", "no", "raw", "cmd16", "cmd24", "edt+ext", "error", "error-unknown", "unsupported",
+            "unknown-code", "bad-checksum", "noise5", "noise", "truncated"]
+    hot = [r.choice(["ok", "no", "raw", "cmd16", "cmd24", "error"]) for _ in range(2)]
+    for _ in range(r.randrange(36, 120) if long else r.randrange(2, 16)):
+        k = r.choice(hot * 6 + [r.choice(allk)]) if long else r.choice(allk)
         kinds.append(k)
         dev = r.randrange(16) << 4
         if k == "ok":
@@ -206,7 +211,8 @@ def line_faults(r, stream):
 def gen_plan(seed, tier="quick"):
     r = plans.rng_for(seed, PROP)
     proto = "luba" if seed % 2 == 0 else "sci"
-    stream, kinds = (gen_luba_stream if proto == "luba" else gen_sci_stream)(r)
+    long = seed % 50 in (7, 8)
+    stream, kinds = (gen_luba_stream if proto == "luba" else gen_sci_stream)(r, long)
     stream, faults = line_faults(r, stream)
     cuts = []
     for _ in range(2):
